@@ -10,7 +10,7 @@ MUTANTS = [
     M("id-in-result", X + "html_extractor.py", "        cache_key = (id(node), tag)\n        if cache_key in self._node_cache:", "        cache_key = (id(node), tag)\n        node[\"uid\"] = id(node)\n        if cache_key in self._node_cache:", "C06-NONDET"),
     M("observer-caches-on-self", D, "    def get_full_text(self) -> str:\n        return _join_unit_text(self.iterate_units())\n\n    def get_metadata(self) -> PdfMetadata:", "    def get_full_text(self) -> str:\n        self._cached = _join_unit_text(self.iterate_units())\n        return self._cached\n\n    def get_metadata(self) -> PdfMetadata:", "C06-PURE"),
     M("observer-mutates-image", D, "                    # Copies carry the unit number; the stored images stay untouched\n                    images=[replace(image, unit_name=1) for image in self.images],", "                    images=[setattr(image, \"unit_name\", 1) or image for image in self.images],", "C06-PURE"),
-    M("observer-aliases-field", D, "        \"\"\"All text from this slide combined.\"\"\"\n        parts = []\n        if self.title:\n            parts.append(self.title)\n        parts.extend(self.body_text)\n        parts.extend(self.other_text)\n        return \"\\n\".join(parts)", "        \"\"\"All text from this slide combined.\"\"\"\n        parts = self.body_text\n        parts.extend(self.other_text)\n        return \"\\n\".join(parts)", "C06-PURE"),
+    M("observer-aliases-field", D, "        \"\"\"All text from this slide combined.\"\"\"\n        parts = []\n        if self.title:\n            parts.append(self.title)\n        parts.extend(self.body_text)\n        parts.extend(self.other_text)\n        return \"\\n\".join(parts)\n\n\n@dataclass\nclass OdpContent", "        \"\"\"All text from this slide combined.\"\"\"\n        parts = self.body_text\n        parts.extend(self.other_text)\n        return \"\\n\".join(parts)\n\n\n@dataclass\nclass OdpContent", "C06-PURE"),
     M("observer-sorts-field-in-place", D, "    def iterate_images(self) -> typing.Generator[ImageInterface, None, None]:\n        for page in self.pages:", "    def iterate_images(self) -> typing.Generator[ImageInterface, None, None]:\n        self.pages.sort(key=lambda p: len(p.text))\n        for page in self.pages:", "C06-PURE"),
     M("stream-truncated", X + "plain_extractor.py", "        content = file_like.read()\n", "        content = file_like.read()\n        file_like.truncate(0)\n", "C06-INPUT"),
     M("stream-closed-in-helper", X + "util/encryption.py", "def is_ooxml_encrypted(file_like: io.BytesIO) -> bool:\n    file_like.seek(0)", "def is_ooxml_encrypted(file_like: io.BytesIO) -> bool:\n    file_like.flush()\n    file_like.seek(0)", "C06-INPUT"),
@@ -19,5 +19,5 @@ MUTANTS = [
 ]
 TWINS = [
     T("sorted-via-variable", X + "open_office/odt_extractor.py", "    return sorted(styles)\n", "    ordered = sorted(styles)\n    return ordered\n"),
-    T("observer-builds-fresh-list", D, "        \"\"\"All text from this slide combined.\"\"\"\n        parts = []\n        if self.title:\n            parts.append(self.title)\n        parts.extend(self.body_text)\n        parts.extend(self.other_text)\n        return \"\\n\".join(parts)", "        \"\"\"All text from this slide combined.\"\"\"\n        parts = list(self.body_text)\n        if self.title:\n            parts.insert(0, self.title)\n        parts.extend(self.other_text)\n        return \"\\n\".join(parts)"),
+    T("observer-builds-fresh-list", D, "        \"\"\"All text from this slide combined.\"\"\"\n        parts = []\n        if self.title:\n            parts.append(self.title)\n        parts.extend(self.body_text)\n        parts.extend(self.other_text)\n        return \"\\n\".join(parts)\n\n\n@dataclass\nclass OdpContent", "        \"\"\"All text from this slide combined.\"\"\"\n        parts = list(self.body_text)\n        if self.title:\n            parts.insert(0, self.title)\n        parts.extend(self.other_text)\n        return \"\\n\".join(parts)\n\n\n@dataclass\nclass OdpContent"),
 ]
